@@ -342,6 +342,9 @@ def _typed_and_large_suite(ctx: Ctx):
 
 
 def run(ctx: Ctx):
+    import fsize
+    for _ in range(ctx.n(2, 12)):
+        fsize.plugin_case(ctx, fsize.rand_plugin_cfg(ctx.rng))
     _fs_suite(ctx)
     _typed_and_large_suite(ctx)
     _exhaustive_ranges(ctx)
@@ -349,6 +352,15 @@ def run(ctx: Ctx):
 
 
 def replay(ctx: Ctx, rec):
+    if isinstance(rec.get("input"), dict) and rec["input"].get("fsize_limit"):
+        import fsize
+        cfg = {k: v for k, v in rec["input"].items() if k not in ("fsize_limit", "dir", "mode")}
+        (fsize.plugin_case if rec["input"]["fsize_limit"] == "plugin" else fsize.take_case)(ctx, cfg, "replay")
+        for f_ in ctx.failures[:10]:
+            print("FAIL", f_["sig"], f_["what"], f_["observed"])
+        if not ctx.failures:
+            print("no failure on replay")
+        return
     """Re-run a recorded failing input on the implementation and the model."""
     from torchsnapshot.memoryview_stream import MemoryviewStream
     inp = rec["input"]
